@@ -445,6 +445,15 @@ class Mon:
                 r['other'] = True
         if acted and kind == 'Pressed' and not self.recs:
             fired = self.rule_r(q, k, Pprev)
+            if fired is not None and not self.stale:
+                # d: nothing has been absorbed since all keys were last up (in particular every modifier absorbed earlier has been
+                # released and pressed again): modifiers count, the last-listed satisfied mapping fires
+                for o in fired['to']:
+                    if self.ismod(q, o):
+                        if not self.isin(q, o, self.V):
+                            self.fail('C08', 'd: with nothing absorbed the satisfied mapping did not fire (modifier output not held)', (i, fired['idx'], o))
+                    elif not self.isin(q, o, pressed_now):
+                        self.fail('C08', 'd: with nothing absorbed the satisfied mapping did not fire (output not pressed)', (i, fired['idx'], o))
             if fired is not None and fired['absb'] and not self.stale:
                 for M in fired['absb']:
                     self.recs.append(dict(M=M, t=k, m=fired['idx'], other=False, P=list(self.P)))
